@@ -342,4 +342,23 @@ def kind : Kind where
       | _, _, _, _ => { st := st, bad := some "run result" }
     | _, _, _ => { st := st, bad := some s!"memo line {l.op}" }
 
+/-! ## kind `memogate`: a complete call inside the window between the outer caller's cache miss and its `group.Do`
+
+`gate v` (see the harness): when the outer caller goes on, the value IS cached and live, so — "once a successful value
+is cached and until it expires, Memoize returns it without invoking the function" — the function has been invoked once
+(by the inner call) and the outer caller receives the cached value.  In the protocol model this is the step `leadHit`
+(`Theorems/C17.lean: no_start_while_cached`). -/
+def gateKind : Kind where
+  σ := Unit
+  init := fun _ => some ()
+  step := fun st l =>
+    match l.op, l.args with
+    | "gate", [.int v] =>
+      { st := st, model := some [.int 1, .int v, .int v], tags := ["memoize:miss-then-cached-before-do"], nontrivial := true
+        spec := match l.res with
+          | [.int calls, .int got, .int cached] =>
+            if calls == 1 && got == cached && cached == v then none else some "cached-value-served-without-invoking:late-leader"
+          | _ => some "cached-value-served-without-invoking:late-leader" }
+    | _, _ => { st := st, bad := some s!"memogate: bad line {l.op}" }
+
 end GoguVerif.Kinds.C17
